@@ -13,7 +13,12 @@ from concurrent.futures import ThreadPoolExecutor
 
 HERE = os.path.dirname(os.path.abspath(__file__))
 sys.path.insert(0, HERE)
-from mutants import MUTANTS  # noqa: E402
+import glob  # noqa: E402
+import importlib  # noqa: E402
+
+MUTANTS = []
+for _f in sorted(glob.glob(os.path.join(HERE, 'mutants*.py'))):
+    MUTANTS.extend(importlib.import_module(os.path.basename(_f)[:-3]).MUTANTS)
 
 
 def run_one(m, tier):
